@@ -103,7 +103,7 @@ def selftest(wd, recs):
             vlib.log("[selftest] corruption %s was NOT rejected" % name)
     if rejected != len(muts) or len(muts) < 8:
         raise vlib.ToolError("binding self-test: %d of %d corrupted traces rejected" % (rejected, len(muts)))
-    return {"mutations": len(muts), "rejected": rejected}
+    return {"mutations": len(muts), "rejected": rejected, "corruptions": [n for n, _ in muts]}
 
 
 def run(tier, seed):
@@ -162,8 +162,8 @@ def run(tier, seed):
     if summ["accepts"] == 0 or summ["accepts"] * 2 > summ["verifies"]:
         raise vlib.ToolError("verification answers look vacuous: %d accepts of %d" % (summ["accepts"], summ["verifies"]))
     if summ["proto_build_failed"] * 20 > summ["proto_runs"]:
-        vlib.log("[payreq] note: %d of %d protocol scripts stopped at a failed build" %
-                 (summ["proto_build_failed"], summ["proto_runs"]))
+        raise vlib.ToolError("%d of %d protocol scripts stopped at a failed builder call: driver is not "
+                             "exercising the derivation chains" % (summ["proto_build_failed"], summ["proto_runs"]))
 
     # ---- 3. trace validation (the oracle)
     parts = split_trace(tpath)
@@ -179,6 +179,7 @@ def run(tier, seed):
              (total, len(parts), time.time() - tv, len(fails)))
     nscr = len(scripts)
     ncase = len(b11) + len(b12)
+    nfull = args[args.index("--full") + 1]
     nviol = 0
     for fl in fails:
         runid = fl["run"]
@@ -196,25 +197,29 @@ def run(tier, seed):
                 "property": PID, "kind": fl["kind"], "invariant": fl["inv"],
                 "first_unmatched_event": fl["rec"], "position_in_run": fl["pos_in_run"],
                 "input": inp, "seed": seed, "trace_of_run": evs, "last_state": fl["last_state"],
-                "how_to_replay": "write `input` as one line to a file; harness/target/debug/payreq "
-                                 "--scripts|--cases <file> --seed <seed> --out t.ndjson (the run number seeds the "
-                                 "values: use the same position in the file); "
-                                 "TRACE=t.ndjson tlc -config PayReqTrace.cfg PayReqTrace.tla"}, key=key):
+                "how_to_replay": "write input.script / input.case as one line to a file F; "
+                                 "harness/target/debug/payreq --scripts F | --cases F --seed %d --first-run %d "
+                                 "--muts %d --full %d --out t.ndjson; "
+                                 "TRACE=t.ndjson tlc -config PayReqTrace.cfg PayReqTrace.tla (in spec/)"
+                                 % (seed, runid, args[args.index("--muts") + 1],
+                                    1 if (nscr < runid <= nscr + nfull or
+                                          nscr + len(b11) < runid <= nscr + len(b11) + nfull) else 0)},
+                key=key):
             nviol += 1
 
     # ---- 4. binding self-test: head of the protocol runs + one table case of each format
     st = None
     if not fails:
-        head, want = [], {"proto": 40, "b11": 1, "b12": 2}
+        head, want = [], {"proto": 120, "b11": 6, "b12": 6}
         with open(tpath) as f:
-            part, keep, full_b11 = None, False, True
+            part, keep, full_b11 = None, False, nfull
             for ln in f:
                 rec = json.loads(ln)
                 if rec["ev"] == "reset":
                     part = rec["part"]
                     keep = want.get(part, 0) > 0
-                    if keep and part == "b11" and full_b11:
-                        keep, full_b11 = False, False   # skip the exhaustive first case (large)
+                    if keep and part == "b11" and full_b11 > 0:
+                        keep, full_b11 = False, full_b11 - 1   # skip the exhaustive cases (large)
                     elif keep:
                         want[part] -= 1
                     if not any(v > 0 for v in want.values()) and not keep:
@@ -224,20 +229,22 @@ def run(tier, seed):
         st = selftest(wd, head)
         vlib.log("[selftest] %s" % st)
 
-    # ---- evidence
-    judged, samples_ev = [], []
+    # ---- evidence (streamed: thorough traces have millions of events)
+    import hashlib
+    n_judged, distinct, samples_ev = 0, set(), []
     with open(tpath) as f:
         for ln in f:
             rec = json.loads(ln)
             if rec["ev"] in ("verify_invreq", "verify_invoice", "mut11", "mut12", "roundtrip"):
                 rec.pop("run", None)
-                judged.append(rec)
-            if len(samples_ev) < 10 and rec["ev"] in ("verify_invreq", "mut11", "roundtrip"):
-                samples_ev.append(rec)
-    nontrivial = [x for x in judged if not (x["ev"] == "mut11" and x["cls"] == "char")]
+                n_judged += 1
+                if not (rec["ev"] == "mut11" and rec["cls"] == "char"):   # same digest as vlib.distinct_count
+                    distinct.add(hashlib.sha1(json.dumps(rec, sort_keys=True, default=str).encode()).digest())
+                if len(samples_ev) < 10 and rec["ev"] in ("verify_invreq", "mut11", "roundtrip"):
+                    samples_ev.append(rec)
     cov = {
-        "evaluations": len(judged),
-        "distinct_nontrivial": vlib.distinct_count(nontrivial),
+        "evaluations": n_judged,
+        "distinct_nontrivial": len(distinct),
         "rule": "TLC-enumerated derivation chains (<=%s objects, 2 parties, 3 key modes, alterations, key swaps) and "
                 "builder presence subsets x mutation classes; values, positions and bits seeded (seed %d)" %
                 ("5" if thorough else "4", seed),
